@@ -155,6 +155,9 @@ func init() {
 			s3b("tap=1", 25000, 800000),
 			s3b("tap=1,hold=1", 30000, 1000000),
 			s3b("tap=1,hold=1,pure=1", 20000, 600000),
+			s3root("", 1500, 60000),
+			s3root("tap=1", 2000, 80000),
+			s3root("tap=1,hold=1", 2000, 80000),
 			{Pkg: "scen/s2", Scen: "feed", Cfg: "", Module: "root", Seams: seamsS2, NoRace: true, Quick: 15000, Thorough: 1000000, ThoroughSecs: 900,
 				Real: []string{"d2 of the root module (update loops, snapshots, host selection; same scenario, import path switched)"}},
 		},
@@ -409,6 +412,14 @@ func s3b(cfg string, quick, thorough int) Batch {
 	return Batch{Pkg: "scen/s3", Scen: scen, Cfg: cfg, Seams: seamsS3, Bubble: true, NoRace: true, Quick: quick, Thorough: thorough, ThoroughSecs: 1200,
 		Real: []string{"v2/d2 complete: Client.getServiceUris, TreeCache, update loops, host selection; v2/d2/lazymap; github.com/go-zookeeper/zk v1.0.3 client (connection loop, watches, reconnect, session handling)"},
 		Stub: []string{"the ZooKeeper ensemble (sim/fakezk: jute wire protocol over net.Pipe)", "wall clock and timers (testing/synctest fake clock, go1.26.8)", "goroutine choice inside one stimulus' causal cone is NOT controlled (one P, no async preemption; trace determinism is measured by --selftest-determinism)"}}
+}
+
+// s3root: an S3 batch against the ROOT module's d2 (its TreeCache and client, and the older ZooKeeper client it pins)
+func s3root(cfg string, quick, thorough int) Batch {
+	b := s3b(cfg, quick, thorough)
+	b.Module = "root"
+	b.Real = []string{"ROOT module d2 complete: Client.getServiceUris, TreeCache, update loops, host selection; d2/lazymap; github.com/samuel/go-zookeeper client (connection loop, watches, reconnect, session handling)"}
+	return b
 }
 
 // s3race: the same bubble scenarios built with the race detector, for C17
